@@ -2123,6 +2123,7 @@ JANET_CORE_FN(os_touch,
 JANET_CORE_FN(os_remove,
               "(os/rm path)",
               "Delete a file. Returns nil.") {
+    janet_sandbox_assert(JANET_SANDBOX_FS_WRITE);
     janet_fixarity(argc, 1);
     const char *path = janet_getcstring(argv, 0);
     int status = remove(path);
@@ -2141,6 +2142,7 @@ JANET_CORE_FN(os_readlink,
     janet_panic("not supported on Windows");
 #else
     static char buffer[PATH_MAX];
+    janet_sandbox_assert(JANET_SANDBOX_FS_READ);
     const char *path = janet_getcstring(argv, 0);
     ssize_t len = readlink(path, buffer, sizeof buffer);
     if (len < 0 || (size_t)len >= sizeof buffer)
@@ -2742,6 +2744,8 @@ JANET_CORE_FN(os_open,
     } else if (write_flag && !read_flag) {
         open_flags |= O_WRONLY;
     } else {
+        /* Also reached with neither :r nor :w, which still opens the file read-write */
+        janet_sandbox_assert(JANET_SANDBOX_FS_READ | JANET_SANDBOX_FS_WRITE);
         open_flags |= O_RDWR;
     }
 
